@@ -159,6 +159,8 @@ def check_case(pyhf, case, backend, precision, props, rng, model_cache, extra_ba
     if ent is None:
         model_cache.clear()  # cases arrive grouped by spec
         spec, poi = concrete_spec(case, rng)
+        if case.get("concrete"):           # ./vf replay: the exact listing order of the recorded failure
+            spec = copy.deepcopy(case["concrete"])
         canon, _ = concrete_spec(case, None)
         before = copy.deepcopy(spec)
         try:
@@ -174,7 +176,9 @@ def check_case(pyhf, case, backend, precision, props, rng, model_cache, extra_ba
     cfg = model.config
     first = ent["first"]
     ent["first"] = False
-    slim = {k: case[k] for k in ("spec", "setting", "sid", "pt", "theta")}
+    # the stored case is complete (so that ./vf replay can re-run exactly it); private keys dropped
+    slim = {k: v for k, v in case.items() if not k.startswith("_")}
+    slim["concrete"] = ent["spec"]
 
     # ---------------- C12: configuration is a consistent partition, defaults / overrides verbatim
     if "C12" in props and first:
